@@ -8,7 +8,7 @@ from vlib import ns
 
 ns.install()
 
-ENTRIES = ['future', 'shutdown', 'exit-exc', 'exit-kbd', 'kbd-result', 'kbd-shutdown']
+ENTRIES = ['future', 'shutdown', 'exit-exc', 'exit-kbd', 'kbd-result', 'kbd-shutdown', 'kbd-exit']
 MSG = 'stop it'
 
 
@@ -92,6 +92,14 @@ def cancel_action(c, entry):
         except KeyboardInterrupt:
             pass
         ns.S.interrupt_pending = False
+    elif entry == 'kbd-exit':
+        # the with-block is left normally; Ctrl-C arrives while __exit__ is waiting for the transfers
+        ns.S.interrupt_pending = True
+        try:
+            m.__exit__(None, None, None)
+        except KeyboardInterrupt:
+            pass
+        ns.S.interrupt_pending = False
     elif entry == 'kbd-result':
         ns.S.interrupt_pending = True
         try:
@@ -110,12 +118,12 @@ def expected_error(entry):
         return H.CancelledError, MSG
     if entry == 'exit-exc':
         return H.FatalError, MSG
-    if entry in ('exit-kbd', 'kbd-shutdown'):
+    if entry in ('exit-kbd', 'kbd-shutdown', 'kbd-exit'):
         return H.CancelledError, 'KeyboardInterrupt()'
     return H.CancelledError, ''
 
 
-def go(c, S, entry=None, top_at=-1):
+def go(c, S, entry=None, top_at=-1, prefer=None):
     """run to quiescence: top-level loop with the cancel injected before the top_at-th task start (blocking entry
     points are only usable here), then shutdown.  Returns None or a 'c04:' / '~' verdict."""
     c.cancel_error = None
@@ -135,12 +143,16 @@ def go(c, S, entry=None, top_at=-1):
                     cancel_action(c, entry)
                 except Exception as e:  # noqa
                     c.cancel_error = e
-                if entry in ('shutdown', 'exit-exc', 'exit-kbd', 'kbd-shutdown') and c.cancel_error is None:
+                if entry in ('shutdown', 'exit-exc', 'exit-kbd', 'kbd-shutdown', 'kbd-exit') and c.cancel_error is None:
                     # shutdown / with-exit is a barrier, however it ends
                     c.barrier_ok = S.quiescent() and c.future.done() and all(e.closed for e in S.execs)
             r = S.runnable()
             if not r:
                 break
+            if prefer is not None:
+                # laziest-consumer top level: the preferred stage runs whenever it can; the others only when it
+                # cannot (or when a blocking primitive pumps them)
+                r = [e for e in r if e is c.execs[prefer]] or r
             r[S.choose(len(r))].start_next()
             t += 1
         c.manager.shutdown()
